@@ -1,11 +1,14 @@
 (* C07: which checks stand between an HTTPS request and the wire.
 
    Modelled code: util/ssl_.py resolve_cert_reqs, create_urllib3_context (verify_mode / check_hostname of the default
-   context); connection.py _ssl_wrap_socket_and_match_hostname (verify_mode always follows cert_reqs, when urllib3 takes
-   the host-name check over, the fingerprint and host-name checks after the handshake, is_verified), HTTPSConnection.connect;
-   connectionpool.py _validate_conn (InsecureRequestWarning).
-   and which trust anchors the context ends up with (ca_certs / ca_cert_dir / ca_cert_data, else - and only in a context
-   urllib3 made itself - the system store).
+   context), ssl_wrap_socket (load_verify_locations, TLS in TLS needs wrap_bio); connection.py
+   _ssl_wrap_socket_and_match_hostname (verify_mode always follows cert_reqs, when urllib3 takes the host-name check over,
+   the fingerprint and host-name checks after the handshake, is_verified, and which trust anchors the context ends up
+   with: ca_certs / ca_cert_dir / ca_cert_data, else - only in a context urllib3 made itself with the stdlib backend - the
+   system store), HTTPSConnection.connect (direct; CONNECT tunnel through an http proxy; through an https proxy, whose own
+   handshake comes first: _connect_tls_proxy), is_verified / proxy_is_verified; connectionpool.py _validate_conn
+   (InsecureRequestWarning); contrib/pyopenssl.py as far as it changes these decisions (IS_PYOPENSSL, a context without
+   check_hostname, load_default_certs or wrap_bio, load_verify_locations that needs a file or a directory).
    Below the model: the TLS library.  Its chain validation and its host-name check, and urllib3's own match_hostname
    (C08), are inputs: who issued the certificate, does it name the server name, does it name the asserted name. *)
 From Coq Require Import List Bool.
@@ -15,10 +18,11 @@ Inductive cert_reqs := CRDefault | CRRequired | CROptional | CRNone.
 Inductive verify_mode := VRequired | VOptional | VNone.
 Inductive assert_hostname := AHUnset | AHFalse | AHName.
 Inductive fingerprint := FPUnset | FPRight | FPWrong | FPBadLength.
-Inductive context := CtxNone | CtxChecking | CtxNotChecking.     (* ssl_context: none given / check_hostname on / off *)
-
+(* ssl_context: none given / an ssl.SSLContext with check_hostname on / off / a PyOpenSSLContext *)
+Inductive context := CtxNone | CtxChecking | CtxNotChecking | CtxPyOpenSSL.
 Inductive trust := TFile | TDir | TData | TNothing.              (* ca_certs / ca_cert_dir / ca_cert_data / none of them *)
 Inductive issuer := IConfigured | ISystem | IUnknown.            (* the CA the caller configured / one of the system store / neither *)
+Inductive backend := BStd | BPyOpenSSL.                          (* contrib.pyopenssl.inject_into_urllib3() or not *)
 
 Record settings := mkSettings {
   s_cert_reqs : cert_reqs; s_assert_hostname : assert_hostname; s_fingerprint : fingerprint; s_context : context; s_trust : trust
@@ -35,37 +39,51 @@ Definition resolve (c : cert_reqs) : verify_mode :=
 Definition is_none (v : verify_mode) : bool := match v with VNone => true | _ => false end.
 Definition is_required (v : verify_mode) : bool := match v with VRequired => true | _ => false end.
 
+(* is the context in use a PyOpenSSLContext? *)
+Definition py_context (b : backend) (c : context) : bool :=
+  match c, b with CtxPyOpenSSL, _ => true | CtxNone, BPyOpenSSL => true | _, _ => false end.
+
 (* the anchors of the context after _ssl_wrap_socket_and_match_hostname: the configured CA whenever one is configured
-   (load_verify_locations); the system store only when none is and the context is urllib3's own (load_default_certs);
-   a caller's context is taken as it comes (here: empty) *)
+   (load_verify_locations); the system store only when none is and the context is urllib3's own and has
+   load_default_certs (a PyOpenSSLContext has not); a caller's context is taken as it comes (here: empty) *)
 Definition no_ca (t : trust) : bool := match t with TNothing => true | _ => false end.
 Definition own_context (c : context) : bool := match c with CtxNone => true | _ => false end.
-Definition anchored (s : settings) (i : issuer) : bool :=
+Definition anchored (b : backend) (s : settings) (i : issuer) : bool :=
   match i with
   | IConfigured => negb (no_ca (s_trust s))
-  | ISystem => no_ca (s_trust s) && own_context (s_context s)
+  | ISystem => no_ca (s_trust s) && own_context (s_context s) && negb (py_context b (s_context s))
   | IUnknown => false
   end.
 (* the chain validates: the issuer is one of the anchors *)
-Definition p_chain_ok (s : settings) (p : peer) : bool := anchored s (p_issuer p).
+Definition p_chain_ok (b : backend) (s : settings) (p : peer) : bool := anchored b s (p_issuer p).
 
-Inductive result :=
-| Sent (verified warned : bool)      (* the handshake and every demanded check passed: the request is written *)
-| Refused                            (* SSLError, nothing written *)
-| Misconfigured.                     (* ValueError from the ssl module: CERT_NONE on a context that checks host names *)
+(* one call of _ssl_wrap_socket_and_match_hostname *)
+Inductive wrapped :=
+| WOk (verified : bool)      (* the handshake and every demanded check passed *)
+| WRefused                   (* SSLError *)
+| WMisconfigured.            (* ValueError: CERT_NONE on a context that checks host names; TLS in TLS on a context without wrap_bio *)
 
-Definition connect (s : settings) (p : peer) : result :=
+Definition wrap (b : backend) (tls_in_tls : bool) (s : settings) (p : peer) : wrapped :=
   let vm := resolve (s_cert_reqs s) in
+  let py := py_context b (s_context s) in
   (* the context's check_hostname before urllib3 touches it *)
-  let ch0 := match s_context s with CtxNone => is_required vm | CtxChecking => true | CtxNotChecking => false end in
+  let ch0 := match s_context s with
+             | CtxNone => is_required vm && negb py
+             | CtxChecking => true
+             | CtxNotChecking | CtxPyOpenSSL => false
+             end in
   (* context.verify_mode = resolve_cert_reqs(cert_reqs): the ssl module refuses CERT_NONE while check_hostname is on *)
-  if ch0 && is_none vm then Misconfigured
+  if ch0 && is_none vm then WMisconfigured
   else
-    let own := match s_fingerprint s, s_assert_hostname s with FPUnset, AHUnset => false | _, _ => true end in
+    let own := match s_fingerprint s, s_assert_hostname s, b with FPUnset, AHUnset, BStd => false | _, _, _ => true end in
     let ch := if own then false else ch0 in
+    (* load_verify_locations of a PyOpenSSLContext wants a file or a directory: with data alone it fails *)
+    if py && match s_trust s with TData => true | _ => false end then WRefused
+    (* TLS in TLS needs SSLContext.wrap_bio *)
+    else if tls_in_tls && py then WMisconfigured
     (* the handshake *)
-    if negb (is_none vm) && negb (p_chain_ok s p) then Refused
-    else if ch && negb (p_sni_name_ok p) then Refused
+    else if negb (is_none vm) && negb (p_chain_ok b s p) then WRefused
+    else if ch && negb (p_sni_name_ok p) then WRefused
     else
       (* after the handshake *)
       let post_ok :=
@@ -76,7 +94,51 @@ Definition connect (s : settings) (p : peer) : result :=
             if negb (is_none vm) && negb ch && negb (match s_assert_hostname s with AHFalse => true | _ => false end)
             then p_assert_name_ok p else true
         end in
-      if negb post_ok then Refused
-      else
-        let verified := is_required vm || negb (match s_fingerprint s with FPUnset => true | _ => false end) in
-        Sent verified (negb verified).
+      if negb post_ok then WRefused
+      else WOk (is_required vm || negb (match s_fingerprint s with FPUnset => true | _ => false end)).
+
+(* how the origin is reached *)
+Record proxy_settings := mkProxy {
+  x_assert_hostname : assert_hostname; x_fingerprint : fingerprint; x_context : context     (* proxy_assert_hostname, proxy_assert_fingerprint, proxy_ssl_context *)
+}.
+Inductive route :=
+| Direct
+| TunnelHttp                                          (* CONNECT in the clear, then TLS with the origin *)
+| TunnelHttps (x : proxy_settings) (xp : peer).       (* TLS with the proxy, CONNECT inside it, then TLS in TLS with the origin *)
+
+(* the settings of the proxy's handshake: cert_reqs and the CAs are the connection's own (_connect_tls_proxy) *)
+Definition proxy_tls (s : settings) (x : proxy_settings) : settings :=
+  mkSettings (s_cert_reqs s) (x_assert_hostname x) (x_fingerprint x) (x_context x) (s_trust s).
+
+Inductive result :=
+| Sent (verified warned : bool)      (* the request is written *)
+| Refused (tunnel : bool)            (* SSLError (ProxyError when it is the proxy's), no request written; tunnel: CONNECT was *)
+| Misconfigured (tunnel : bool).     (* ValueError, no request written *)
+
+Definition connect (b : backend) (s : settings) (p : peer) (r : route) : result :=
+  match r with
+  | Direct =>
+      match wrap b false s p with
+      | WOk v => Sent v (negb v)
+      | WRefused => Refused false
+      | WMisconfigured => Misconfigured false
+      end
+  | TunnelHttp =>
+      (* proxy_is_verified is False for an http proxy *)
+      match wrap b false s p with
+      | WOk v => Sent v (negb v && negb false)
+      | WRefused => Refused true
+      | WMisconfigured => Misconfigured true
+      end
+  | TunnelHttps x xp =>
+      match wrap b false (proxy_tls s x) xp with
+      | WOk xv =>
+          match wrap b true s p with
+          | WOk v => Sent v (negb v && negb xv)        (* _validate_conn: not is_verified and not proxy_is_verified *)
+          | WRefused => Refused true
+          | WMisconfigured => Misconfigured true
+          end
+      | WRefused => Refused false
+      | WMisconfigured => Misconfigured false
+      end
+  end.
